@@ -51,20 +51,28 @@ Theorem C09_class_exact_rule : forall o prelude pb body e c rest st,
 Proof. exact class_exact_rule_normal. Qed.
 Print Assumptions C09_class_exact_rule.
 
-(* WHOLE SHEETS (every size, every nesting depth of at-rules, selector functions and blocks): without
-   @import / :host rewriting, on every well-shaped token tree whose rules the specification finds
-   complete (each has its `;` or `{}` terminator), the identifiers and sign comments of the normal
-   output are exactly the specification's: every identifier directly after a `.` in selector
-   context - qualified-rule preludes, blocks of at-rule preludes, every depth of selector functions,
-   every rule inside every rule-bearing at-rule - is `<prefix>--<name>` preceded by the sign comment,
-   and nothing else is touched or added.  Composition of C09_class_exact_rule over rule splitting,
-   at-rule preludes and nested rule lists (Proofs/CssSheetClass.v, lockstep induction on the fuel) *)
+(* WHOLE SHEETS (every size, every nesting depth of at-rules, selector functions and blocks) and EVERY OPTION SET
+   (class prefix, sign, import sign, host conversion): on every well-shaped token tree whose rules the specification finds
+   complete (each has its `;` or `{}` terminator, each `@import` with a sign is one the specification accepts), the
+   identifiers and comments of the normal output are exactly the specification's: every identifier directly after a `.`
+   in selector context - qualified-rule preludes, blocks of at-rule preludes, every depth of selector functions, every rule
+   inside every rule-bearing at-rule, the `supports(..)` / media conditions of an `@import` - is `<prefix>--<name>` preceded
+   by the sign comment; layer names are not touched; the import placeholder comment stands where the specification puts
+   it; `:host` rules (pure or combined) contribute nothing to the normal output; nothing else is touched or added.
+   Composition of C09_class_exact_rule over rule splitting, at-rule preludes, nested rule lists, the @import walkers and
+   the :host classification (Proofs/CssSheetClass.v, lockstep induction on the fuel) *)
 Theorem C09_class_exact_sheet : forall o tree endp,
-  shaped tree = true -> import_sign o = None -> convert_host o = false ->
+  shaped tree = true ->
   so_complete (expected o tree) = true ->
   idc (o_tokens (w_normal (transform o tree endp))) = idc (map e_tok (so_normal (expected o tree))).
 Proof. exact class_exact_sheet. Qed.
 Print Assumptions C09_class_exact_sheet.
+
+(* the hypotheses are inhabited by a sheet with nested at-rules and selector functions, and by the former D25 witness
+   (an @import with a sign, a layer(a.b) condition and a class prefix) *)
+Example C09_class_exact_sheet_inhabited_import :
+  shaped d25_tree = true /\ so_complete (expected d25_opts d25_tree) = true /\ import_sign d25_opts <> None.
+Proof. vm_compute. repeat split; discriminate. Qed.
 
 (* the hypotheses are inhabited by a sheet with nested at-rules and selector functions *)
 Example C09_class_exact_sheet_inhabited :
@@ -72,10 +80,8 @@ Example C09_class_exact_sheet_inhabited :
   map ser_tok (idc (o_tokens (w_normal (transform with_prefix d14_tree (mkpos 0 17))))) = [[120]; [112;45;45;97]; [112;45;45;98]].
 Proof. vm_compute. repeat split; reflexivity. Qed.
 
-(* the same statement with @import / :host rewriting on (C09_prefix_exact_full over all option sets)
-   was refuted by D13 and then by D25; both are repaired and both former witnesses satisfy it now.
-   With the rewrites on it is neither refuted nor proved as a whole (the theorem above covers the
-   option sets without them); it is checked on every run. *)
+(* history: the whole-sheet statement was refuted by D13 and then by D25 (layer names prefixed); both are repaired, both
+   former witnesses satisfy it, and it is now the theorem above *)
 Theorem C09_former_witnesses_now_exact :
   (map ser_tok (idents (o_tokens (w_normal (transform with_prefix d13_tree (mkpos 0 20))))) =
    map ser_tok (idents (map e_tok (so_normal (expected with_prefix d13_tree))))) /\
